@@ -23,7 +23,7 @@ for f in sorted(glob.glob(os.path.join(ROOT, "seeded", "C*-*", "meta.json"))):
     caught += any_caught
     fe = m.get("first_evaluation")
     k_ = int(name.split("-")[1])
-    rnd = 1 if k_ <= 3 else (2 if k_ <= 5 else (3 if k_ <= 7 else 4))
+    rnd = 1 if k_ <= 3 else (2 if k_ <= 5 else (3 if k_ <= 7 else (4 if k_ <= 9 else 5)))
     if fe:
         fcaught = any(r_["caught"] for r_ in fe.get("checks", {}).values())
         fs = first_stats.setdefault(rnd, [0, 0])
